@@ -1,8 +1,292 @@
-import Ufw.Model.Regp
-import Ufw.Spec.Regp
+/-
+C08 – every emitted frame is spec-conformant and round-trips through the receiver.
+Property theorems only; helper lemmas live in Ufw/Lemmas/Regp.lean.
+
+`Spec.Regp.wire serial f` is the octet string doc/regp.txt prescribes for frame `f` on a
+transport: big-endian header fields, CRC-16/ARC header checksum exactly on serial links,
+payload checksum exactly on serial links with payload, SLIP framing without start delimiter
+resp. protobuf-varint length prefix.
+-/
+import Ufw.Lemmas.Regp
+import Ufw.Lemmas.RegpRecv
+import Ufw.Lemmas.RegpSpec
+import Ufw.Props.C07
+
 namespace Ufw.Props.C08
-open Ufw Ufw.Model.Regp
-/-- placeholder while the correspondence is brought up: the session counter wraps at 2^16 -/
-theorem seq_step (c : Cfg) (snk : Ufw.Model.Slip.Snk) (seq : Nat) (s16 : Bool) (a n : Nat) :
-    (regp_req_read c snk seq s16 a n).2 = (seq + 1) % 65536 := rfl
+open Ufw Ufw.Model.Regp Ufw.Lemmas.Regp
+open Ufw.Model.Slip (Snk SrcEv)
+open Ufw.Spec.Regp (Frame MType wire request errorResponse ackResponse metaFrame carriesValue crc16)
+
+/-- the request a header stands for when an emitter answers it -/
+def reqOf (h : Hdr) : Frame := request (h.type = 2) false h.seq h.addr 0 []
+
+/-- a sink that has room for `w` -/
+def Fits (snk : Snk) (w : List Octet) : Prop := w.length ≤ snk.room
+
+/-- what "emits exactly `w` and reports success" means -/
+def Emits (s : Sent) (snk : Snk) (w : List Octet) : Prop := s.rc = none ∧ s.snk.got = snk.got ++ w
+
+private theorem emits_of (c : Cfg) (snk : Snk) (msem : Msem) (f : Frame) (pl : Option (List Octet))
+    (t code seq addr n plc : Nat)
+    (e1 : f.type.code = t) (e2 : f.code = code) (e3 : f.seq = seq) (e4 : f.addr = addr) (e5 : f.size = n)
+    (e6 : crc16 f.payload = plc)
+    (hws : ws16Of c msem = f.ws16)
+    (hpl : plOf c f.type.code f.size = (c.serial && !f.payload.isEmpty))
+    (hcode : f.code < 16) (hpay : pl.getD [] = f.payload)
+    (hroom : Fits snk (wire c.serial f)) :
+    Emits (send_memory c snk (encode_header c msem t code seq addr n plc) pl) snk (wire c.serial f) := by
+  subst e1 e2 e3 e4 e5 e6
+  have ho := frame_octets_eq c msem f hws hpl hcode
+  have key := send_memory_spec c snk (encode_header c msem f.type.code f.code f.seq f.addr f.size (crc16 f.payload)) pl
+  simp only [hpay, ← ho] at key
+  have hw : wire c.serial f = (if c.serial then Ufw.Spec.Slip.frame false (f.onTransport c.serial).octets
+      else Ufw.Spec.Regp.leb128 (f.onTransport c.serial).octets.length ++ (f.onTransport c.serial).octets) := by
+    simp only [wire]
+  rw [hw]
+  exact key (by rw [← hw]; exact hroom)
+
+/-- read requests, 8- and 16-bit semantics: wire image and session counter -/
+theorem req_read_wire (c : Cfg) (snk : Snk) (seq : Nat) (s16 : Bool) (a n : Nat)
+    (hroom : Fits snk (wire c.serial (request false s16 seq a n []))) :
+    Emits (regp_req_read c snk seq s16 a n).1 snk (wire c.serial (request false s16 seq a n [])) ∧
+    (regp_req_read c snk seq s16 a n).2 = (seq + 1) % 65536 := by
+  refine ⟨?_, rfl⟩
+  simp only [regp_req_read]
+  exact emits_of c snk (if s16 then .s16 else .s8) (request false s16 seq a n []) none 0 0 seq a n 0
+    rfl rfl rfl rfl rfl rfl
+    (by cases s16 <;> simp [ws16Of, request]) (by simp [plOf, request, MType.code]) (by simp [request]) rfl hroom
+
+/-- write requests: the payload is the octet image of `n` atoms -/
+theorem req_write_wire (c : Cfg) (snk : Snk) (seq : Nat) (s16 : Bool) (a n : Nat) (buf : List Octet)
+    (hlen : buf.length = n * (if s16 then 2 else 1))
+    (hroom : Fits snk (wire c.serial (request true s16 seq a n buf))) :
+    Emits (regp_req_write c snk seq s16 a n buf).1 snk (wire c.serial (request true s16 seq a n buf)) ∧
+    (regp_req_write c snk seq s16 a n buf).2 = (seq + 1) % 65536 := by
+  refine ⟨?_, rfl⟩
+  have hne : 0 < n ↔ buf ≠ [] := by
+    rw [Ne, ← List.length_eq_zero_iff, hlen]
+    cases s16 <;> simp <;> omega
+  simp only [regp_req_write]
+  exact emits_of c snk (if s16 then .s16 else .s8) (request true s16 seq a n buf) (some buf) 2 0 seq a n (crcOf 0 buf)
+    rfl rfl rfl rfl rfl (by simp [request, crcOf_eq])
+    (by cases s16 <;> simp [ws16Of, request])
+    (by
+      simp only [plOf, request, MType.code, ↓reduceIte]
+      cases c.serial <;> cases hb : buf.isEmpty <;> simp_all [List.isEmpty_iff])
+    (by simp [request]) rfl hroom
+
+private theorem resp_type (h : Hdr) (ht : h.type = 0 ∨ h.type = 2) :
+    (Ufw.Spec.Regp.responseType (reqOf h).type).code = req2resp h.type ∧
+    (Ufw.Spec.Regp.responseType (reqOf h).type).code ≠ 0 := by
+  rcases ht with ht | ht <;> simp [reqOf, request, ht, req2resp, Ufw.Spec.Regp.responseType, MType.code]
+
+/-- error responses without payload (EWORDSIZE, EPAYLOADCRC, EPAYLOADSIZE, EBUSY, EIO): octet
+    semantics, block size 0, echo of sequence number and address -/
+theorem resp0_wire (c : Cfg) (snk : Snk) (h : Hdr) (code value : Nat) (ht : h.type = 0 ∨ h.type = 2)
+    (hc : code < 16) (hv : carriesValue code = false)
+    (hroom : Fits snk (wire c.serial (errorResponse (reqOf h) code value))) :
+    Emits (send_resp_0 c snk h code .s8) snk (wire c.serial (errorResponse (reqOf h) code value)) := by
+  have hty := resp_type h ht
+  simp only [send_resp_0]
+  exact emits_of c snk .s8 (errorResponse (reqOf h) code value) none (req2resp h.type) code h.seq h.addr 0 0
+    hty.1 rfl rfl rfl (by simp [errorResponse, hv]) (by simp [errorResponse, hv, crc16, Ufw.Spec.Crc.crc])
+    (by simp [ws16Of, errorResponse])
+    (by simp [plOf, errorResponse, hv])
+    (by simp [errorResponse, hc]) (by simp [errorResponse, hv]) hroom
+
+/-- error responses that carry a 32-bit value (ERXOVERFLOW, ETXOVERFLOW: the buffer size;
+    EUNMAPPED, EACCESS, ERANGE, EINVALID: the reported address): four octets big-endian, block
+    size 4 in octet semantics, payload checksum on serial links -/
+theorem resp32_wire (c : Cfg) (snk : Snk) (h : Hdr) (code value : Nat) (ht : h.type = 0 ∨ h.type = 2)
+    (hc : code < 16) (hv : carriesValue code = true)
+    (hroom : Fits snk (wire c.serial (errorResponse (reqOf h) code value))) :
+    Emits (send_resp_32 c snk h code value .s8) snk (wire c.serial (errorResponse (reqOf h) code value)) := by
+  have hty := resp_type h ht
+  have hne : (Ufw.Spec.Regp.be 4 value) ≠ [] := by
+    intro h0; have := be_length 4 value; rw [h0] at this; simp at this
+  simp only [send_resp_32, msem_size]
+  exact emits_of c snk .s8 (errorResponse (reqOf h) code value) (some (be32 value)) (req2resp h.type) code h.seq h.addr
+    (2 * 2) (crcOf 0 (be32 value))
+    hty.1 rfl rfl rfl (by simp [errorResponse, hv, be_length]) (by simp [errorResponse, hv, crcOf_eq, be32, Ufw.Spec.Regp.be])
+    (by simp [ws16Of, errorResponse])
+    (by
+      have h2 := hty.2
+      simp only [plOf, errorResponse, hv, ↓reduceIte, be_length]
+      cases c.serial <;> simp_all [List.isEmpty_iff])
+    (by simp [errorResponse, hc]) (by simp [errorResponse, hv, be32, Ufw.Spec.Regp.be]) hroom
+
+/-- acknowledgements: the delivered atoms (a read) or nothing (a write), word size of the
+    attached memory, block size = number of atoms -/
+theorem ack_wire (c : Cfg) (snk : Snk) (h : Hdr) (d : List Octet) (n : Nat) (ht : h.type = 0 ∨ h.type = 2)
+    (hlen : d.length = n * (if c.mem16 then 2 else 1))
+    (hroom : Fits snk (wire c.serial (ackResponse (reqOf h) c.mem16 d))) :
+    Emits (regp_resp_ack c snk h (some d) n) snk (wire c.serial (ackResponse (reqOf h) c.mem16 d)) := by
+  have hty := resp_type h ht
+  have hsz : (if c.mem16 then d.length / 2 else d.length) = n := by
+    rw [hlen]; cases c.mem16 <;> simp
+  have hne : 0 < n ↔ d ≠ [] := by
+    rw [Ne, ← List.length_eq_zero_iff, hlen]
+    cases c.mem16 <;> simp <;> omega
+  simp only [regp_resp_ack]
+  exact emits_of c snk .auto (ackResponse (reqOf h) c.mem16 d) (some d) (req2resp h.type) 0 h.seq h.addr n (crcOf 0 d)
+    hty.1 rfl rfl rfl (by simp [ackResponse, hsz]) (by simp [ackResponse, crcOf_eq])
+    (by simp [ws16Of, ackResponse])
+    (by
+      have h2 := hty.2
+      simp only [plOf, ackResponse, hsz]
+      cases c.serial <;> cases hb : d.isEmpty <;> simp_all [List.isEmpty_iff])
+    (by simp [ackResponse]) (by simp [ackResponse]) hroom
+
+/-- the acknowledgement of a write: no payload at all -/
+theorem ack_empty_wire (c : Cfg) (snk : Snk) (h : Hdr) (ht : h.type = 0 ∨ h.type = 2)
+    (hroom : Fits snk (wire c.serial (ackResponse (reqOf h) c.mem16 []))) :
+    Emits (regp_resp_ack c snk h none 0) snk (wire c.serial (ackResponse (reqOf h) c.mem16 [])) := by
+  have hty := resp_type h ht
+  simp only [regp_resp_ack]
+  exact emits_of c snk .auto (ackResponse (reqOf h) c.mem16 []) none (req2resp h.type) 0 h.seq h.addr 0 0
+    hty.1 rfl rfl rfl (by simp [ackResponse]) (by simp [ackResponse, crc16, Ufw.Spec.Crc.crc])
+    (by simp [ws16Of, ackResponse])
+    (by simp [plOf, ackResponse])
+    (by simp [ackResponse]) (by simp [ackResponse]) hroom
+
+/-- meta messages -/
+theorem meta_wire (c : Cfg) (snk : Snk) (m : Nat) (hm : m < 16)
+    (hroom : Fits snk (wire c.serial (metaFrame m))) :
+    Emits (regp_resp_meta c snk m) snk (wire c.serial (metaFrame m)) := by
+  simp only [regp_resp_meta]
+  exact emits_of c snk .s8 (metaFrame m) none 15 m 0 0 0 0
+    rfl rfl rfl rfl rfl (by simp [metaFrame, crc16, Ufw.Spec.Crc.crc])
+    (by simp [ws16Of, metaFrame]) (by simp [plOf, metaFrame]) (by simp [metaFrame, hm]) (by simp [metaFrame]) hroom
+
+/-! ### the frames the emitters produce are well-formed -/
+
+theorem request_wf (serial write ws16 : Bool) (seq addr n : Nat) (payload : List Octet)
+    (hs : seq < 65536) (ha : addr < 4294967296) (hn : n < 4294967296)
+    (hlen : payload.length = if write then n * (if ws16 then 2 else 1) else 0) :
+    WellFormed ((request write ws16 seq addr n payload).onTransport serial) := by
+  constructor
+  · cases write <;> simp [request, Frame.onTransport, Ufw.Spec.Regp.codeValid]
+  · simpa [request, Frame.onTransport] using hs
+  · simpa [request, Frame.onTransport] using ha
+  · simpa [request, Frame.onTransport] using hn
+  · cases write <;> cases ws16 <;>
+      simp [request, Frame.onTransport, Ufw.Spec.Regp.sizeValid] at hlen ⊢ <;>
+      first | assumption | (subst hlen; simp) | omega
+  · intro h
+    simp only [Frame.onTransport, Bool.and_eq_true, Bool.not_eq_eq_eq_not, Bool.not_true] at h
+    simpa [request, Frame.onTransport, List.isEmpty_iff] using h.2
+
+theorem errorResponse_wf (serial : Bool) (h : Hdr) (code value : Nat) (hc : code ≤ 11)
+    (hs : h.seq < 65536) (ha : h.addr < 4294967296) :
+    WellFormed ((errorResponse (reqOf h) code value).onTransport serial) := by
+  have hl := be_length 4 value
+  constructor
+  · by_cases h2 : h.type = 2 <;>
+      simp [errorResponse, reqOf, request, Frame.onTransport, Ufw.Spec.Regp.codeValid, Ufw.Spec.Regp.responseType, h2, hc]
+  · simpa [errorResponse, reqOf, request, Frame.onTransport] using hs
+  · simpa [errorResponse, reqOf, request, Frame.onTransport] using ha
+  · simp only [errorResponse, Frame.onTransport]
+    split <;> simp [hl]
+  · by_cases h2 : h.type = 2 <;>
+      simp [errorResponse, reqOf, request, Frame.onTransport, Ufw.Spec.Regp.sizeValid, Ufw.Spec.Regp.responseType, h2]
+  · intro hp
+    simp only [Frame.onTransport, Bool.and_eq_true, Bool.not_eq_eq_eq_not, Bool.not_true] at hp
+    simpa [errorResponse, Frame.onTransport, List.isEmpty_iff] using hp.2
+
+theorem ackResponse_wf (serial mem16 : Bool) (h : Hdr) (d : List Octet) (n : Nat)
+    (hlen : d.length = n * (if mem16 then 2 else 1)) (hn : n < 4294967296)
+    (hs : h.seq < 65536) (ha : h.addr < 4294967296) :
+    WellFormed ((ackResponse (reqOf h) mem16 d).onTransport serial) := by
+  constructor
+  · by_cases h2 : h.type = 2 <;>
+      simp [ackResponse, reqOf, request, Frame.onTransport, Ufw.Spec.Regp.codeValid, Ufw.Spec.Regp.responseType, h2]
+  · simpa [ackResponse, reqOf, request, Frame.onTransport] using hs
+  · simpa [ackResponse, reqOf, request, Frame.onTransport] using ha
+  · cases mem16 <;> simp [ackResponse, Frame.onTransport] at hlen ⊢ <;> omega
+  · by_cases h2 : h.type = 2 <;> cases mem16 <;>
+      simp [ackResponse, reqOf, request, Frame.onTransport, Ufw.Spec.Regp.sizeValid, Ufw.Spec.Regp.responseType, h2] at hlen ⊢ <;>
+      omega
+  · intro hp
+    simp only [Frame.onTransport, Bool.and_eq_true, Bool.not_eq_eq_eq_not, Bool.not_true] at hp
+    simpa [ackResponse, Frame.onTransport, List.isEmpty_iff] using hp.2
+
+theorem metaFrame_wf (serial : Bool) (m : Nat) (hm : m = 1 ∨ m = 2) :
+    WellFormed ((metaFrame m).onTransport serial) := by
+  constructor <;> simp [metaFrame, Frame.onTransport, Ufw.Spec.Regp.codeValid, Ufw.Spec.Regp.sizeValid, hm]
+
+/-! ### every emitted frame is accepted by the receiver, with the same fields -/
+
+open Ufw.Lemmas.Slip (octets) in
+/-- the receiver run on the wire image of a well-formed frame: no error, the frame is returned
+    in a block, and its parsed fields - type, option bits, code, sequence number, address, block
+    size, payload - are those of the frame; the source is consumed exactly up to the frame's end
+    and nothing is sent.  (`WellFormed` holds for every frame the emitters produce:
+    `request_wf`, `errorResponse_wf`, `ackResponse_wf`, `metaFrame_wf`.) -/
+theorem emit_recv (p : Inst) (f : Frame) (rest : List SrcEv)
+    (hsrc : p.src = octets (wire p.cfg.serial f) ++ rest)
+    (wf : WellFormed (f.onTransport p.cfg.serial))
+    (hcap : 0 < p.cfg.B - p.cfg.F) (hal : p.al.script.head?.getD false = false)
+    (hfit : (f.onTransport p.cfg.serial).octets.length ≤ p.cfg.B - p.cfg.F)
+    (h64 : (f.onTransport p.cfg.serial).octets.length < 2 ^ 64) :
+    ∃ h off,
+      (regp_recv p).2.1 = { err := none, framesize := 0,
+                            frame := some { raw := (f.onTransport p.cfg.serial).octets, hdr := some (h, off) } } ∧
+      frameWith f.type h ((f.onTransport p.cfg.serial).octets.drop (2 * off)) = f.onTransport p.cfg.serial ∧
+      h.type = f.type.code ∧
+      (regp_recv p).1 = none ∧ (regp_recv p).2.2.snk = p.snk ∧ (regp_recv p).2.2.src = rest ∧
+      (regp_recv p).2.2.al.live = p.al.live + 1 := by
+  have hch : channelRecv p.cfg p.src = (none, (f.onTransport p.cfg.serial).octets, rest) := by
+    rw [hsrc]
+    cases hs : p.cfg.serial
+    · have := channelRecv_tcp p.cfg hs (f.onTransport false).octets rest (by rw [hs] at h64; exact h64)
+      simpa [wire, hs] using this
+    · have := channelRecv_serial p.cfg hs (f.onTransport true).octets rest
+      simpa [wire, hs] using this
+  have hne : (f.onTransport p.cfg.serial).octets ≠ [] := by
+    intro h0
+    have := classify_octets _ wf
+    rw [h0] at this
+    simp [Ufw.Spec.Regp.classify] at this
+  obtain ⟨hmf, hsrc', hal', _, _, hreply⟩ := recv_stored p _ rest hch hcap hne hal hfit
+  have hv := Ufw.Props.C07.verdict_eq_spec (f.onTransport p.cfg.serial).octets
+  rw [classify_octets _ wf] at hv
+  rcases hpf : parse_frame (f.onTransport p.cfg.serial).octets with ⟨r, ho⟩
+  rw [hpf] at hv hmf hreply
+  cases r with
+  | error e =>
+    exfalso
+    cases ho with
+    | none =>
+      simp only [verdictOf] at hv
+      by_cases h1 : e = .ebadmsg
+      · simp [h1] at hv
+      · by_cases h2 : e = .eilseq <;> simp [h1, h2] at hv
+    | some v =>
+      obtain ⟨hd, off⟩ := v
+      simp only [verdictOf] at hv
+      by_cases h1 : e = .efault
+      · cases hty : MType.ofCode hd.type <;> simp [h1, hty] at hv
+      · by_cases h2 : e = .eproto
+        · cases hty : MType.ofCode hd.type <;> simp [h2, hty] at hv
+        · simp [h1, h2] at hv
+  | ok v =>
+    cases ho with
+    | none => simp [verdictOf] at hv
+    | some v' =>
+      obtain ⟨hd, off⟩ := v'
+      simp only [verdictOf] at hv
+      cases hty : MType.ofCode hd.type with
+      | none => simp [hty] at hv
+      | some t =>
+        simp only [hty, Option.map_some, Option.some.injEq, Ufw.Spec.Regp.Verdict.accept.injEq] at hv
+        have htype : t = f.type := by
+          have := congrArg Frame.type hv
+          simpa [frameWith, Frame.onTransport] using this
+        subst htype
+        refine ⟨hd, off, ?_, hv, ofCode_some _ _ hty, ?_, ?_, hsrc', ?_⟩
+        · simpa [errOf] using hmf
+        · simpa using congrArg Prod.fst hreply
+        · simpa using congrArg Prod.snd hreply
+        · rw [hal']
+
 end Ufw.Props.C08
